@@ -688,6 +688,36 @@ func cause(r *result, chans map[uint64]bool, upto int) string {
 			perr = true
 		}
 	}
+	// "...then-stale-acks" names a mechanism, not just a past nack: a message was published again while the
+	// confirmation of its earlier publish on the same open channel had not been read, so that confirmation
+	// (queued or read later) is counted on top of the new one.  Without such a superseded publish before
+	// upto the channel's count cannot have been filled by stale confirmations.
+	stale := false
+	for i, p := range r.pubs {
+		if p.tag == 0 || !chans[p.ch] || (p.verdict != "ack" && p.verdict != "nack") {
+			continue
+		}
+		again := -1
+		for _, q := range r.pubs[i+1:] {
+			if q.body == p.body && q.ch == p.ch && q.seq <= upto {
+				again = q.seq
+				break
+			}
+		}
+		if again < 0 {
+			continue
+		}
+		readBefore := false
+		for _, k := range r.cons {
+			if k.pub == i && k.seq < again {
+				readBefore = true
+			}
+		}
+		stale = stale || !readBefore
+	}
+	if (nack || perr) && !stale {
+		return "no-superseded-publish-pending"
+	}
 	switch {
 	case nack && perr:
 		return "nack-and-publish-error-then-stale-acks"
